@@ -8,6 +8,7 @@ import Driver.OpsFnGen
 import Driver.OpsFnGen2
 import Driver.OpsFnGen3
 import Driver.OpsFnGen4
+import Driver.OpsFnGen5
 import Driver.OpsC03
 import Driver.OpsSym
 import Driver.OpsBot
@@ -37,6 +38,7 @@ def handlers : List Handler := [
   handleFnGen2,
   handleFnGen3,
   handleFnGen4,
+  handleFnGen5,
   handleC03,
   handleSym,
   handleEval,
